@@ -124,8 +124,13 @@ let parse_case kind = function
     (match lst obs, m with
      | [Atom "panic"; _], _ -> r := Propfail ("codec.parser.panic", "ParseBundle panicked") :: !r
      | [Atom "err"], None -> tags := "reject" :: !tags
-     | [Atom "err"], Some _ -> r := Mismatch "model accepts, implementation rejects" :: !r
-     | (Atom "ok" :: _), None -> r := Mismatch "implementation accepts, model rejects" :: !r
+     | [Atom "err"], Some _ ->
+       (* guard band around the expiry instant: the verdict must be the same two minutes later *)
+       if dec_bundle (N.add now (n_of_int 120000)) bytes <> None then r := Mismatch "model accepts, implementation rejects" :: !r
+       else tags := "near-expiry-skipped" :: !tags
+     | (Atom "ok" :: _), None ->
+       if dec_bundle (N.sub now (n_of_int 120000)) bytes = None then r := Mismatch "implementation accepts, model rejects" :: !r
+       else tags := "near-expiry-skipped" :: !tags
      | [Atom "ok"; dump; id; consumed; re], Some (b, rest) ->
        tags := "accept" :: !tags;
        let md = dump_bundle b in
